@@ -131,8 +131,10 @@ fn run(args: &[String]) {
     let mut exhaustive: BTreeMap<String, bool> = BTreeMap::new();
     let mut notes: Vec<String> = Vec::new();
     let mut cases: u64 = 0;
+    let mut evals: u64 = 0;
     for c in results.iter_mut() {
         cases += c.case_no;
+        evals += c.evals;
         for (k, v) in &c.counters {
             *counters.entry(k.clone()).or_insert(0) += v;
         }
@@ -171,6 +173,7 @@ fn run(args: &[String]) {
         "only_shard": only,
         "scale": scale,
         "cases": cases,
+        "evals": evals.max(cases),
         "counters": counters,
         "distinct": distinct.len(),
         "samples": samples,
